@@ -797,6 +797,9 @@ impl<'tcx> Dumper<'tcx> {
         o.push(("adj", self.adj(tr, e)));
         o.push(("sp", self.sp(e.span)));
         o.push(("mb", self.mb(e.span)));
+        if e.span.from_expansion() {
+            o.push(("cs", self.sp(e.span.source_callsite())));
+        }
         J::Obj(o)
     }
 
